@@ -48,12 +48,12 @@ class RegModel:
     def __init__(self, layout):
         self.layout = layout
         self.regs = layout["regs"]
-        self.by_addr = {r["addr"]: i for i, r in enumerate(self.regs)}
+        self.by_addr = {r["addr"] + 4 * w: i for i, r in enumerate(self.regs) for w in range(r.get("words", 1))}
         self.slots = []  # (reg index, field)
         self.slot_of = {}
         for ri, r in enumerate(self.regs):
             for f in r["fields"]:
-                if f["kind"] in ("mem", "flag"):
+                if f["kind"] in ("mem", "flag", "win_addr", "win_data"):
                     self.slot_of[(ri, f["name"])] = len(self.slots)
                     self.slots.append((ri, f))
         self.init = tuple(f.get("default", 0) for _, f in self.slots)
@@ -66,8 +66,12 @@ class RegModel:
         """register index addressed by a (word aligned) byte address, or None"""
         return self.by_addr.get(addr & ~3)
 
-    def word(self, state, ri, hw):
+    def word(self, state, ri, hw, addr=None):
         """32-bit value a bus read of register ri sees in a cycle with hardware inputs hw (dict port->value)"""
+        r = self.regs[ri]
+        if "read_tag" in r:
+            # address window (AddrRange with a user handler): the handler returns tag | relative address
+            return r["read_tag"] | ((addr & ~3) - r["addr"])
         v = 0
         for f in self.regs[ri]["fields"]:
             w = f["hi"] - f["lo"] + 1
@@ -94,8 +98,10 @@ class RegModel:
             w = f["hi"] - f["lo"] + 1
             fm = (m32 >> f["lo"]) & ((1 << w) - 1)
             fd = (data >> f["lo"]) & ((1 << w) - 1)
-            if k == "mem":
+            if k == "mem" or k == "win_data":
                 st[slot] = (st[slot] & ~fm) | (fd & fm)
+            elif k == "win_addr":  # the window handler records the relative address of the last write
+                st[slot] = (addr & ~3) - self.regs[ri]["addr"]
             else:  # flag: strobed '1' sets, anything else leaves it
                 if fm & fd & 1:
                     st[slot] = 1
@@ -290,7 +296,7 @@ class Monitor:
         ri = self.m.reg_of(addr)
         if ri is None:
             return 0
-        return self.m.word(self.regs, ri, hw)
+        return self.m.word(self.regs, ri, hw, addr)
 
     def _resolve(self, wr, rd, popped_write, popped_read, hw, post):
         """Find the explanation of the observed register/notification outputs among the behaviours the property
